@@ -40,6 +40,13 @@ try:
         print("%-45s %s %s" % (d, results[d]["outcome"], sigs[:2]))
 finally:
     subprocess.call(["git", "-C", "/repo", "worktree", "remove", "--force", wt])
-with open(os.path.join(HERE, "evidence", "selftest_sensitivity.json"), "w") as f:
-    json.dump({"seeded_changes": len(results), "not_detected": missed, "results": results}, f, indent=1, sort_keys=True)
+out_path = os.path.join(HERE, "evidence", "selftest_sensitivity.json")
+if want and os.path.exists(out_path):
+    # a partial re-run (name prefixes given) replaces only its own entries
+    prev = json.load(open(out_path)).get("results", {})
+    prev.update(results)
+    results = prev
+n_missed = sum(1 for r in results.values() if r.get("outcome") != "detected")
+with open(out_path, "w") as f:
+    json.dump({"seeded_changes": len(results), "not_detected": n_missed, "results": results}, f, indent=1, sort_keys=True)
 sys.exit(1 if missed else 0)
